@@ -398,6 +398,12 @@ func (s Server) Serve(c context.Context, conn network.Conn) (err error) {
 		// A declined 'Expect: 100-continue' request is answered with the 417 set above and nothing else: its
 		// body was deliberately not read, so a handler would be shown a request without the body that belongs to it.
 		if continueReadingRequest {
+			// A request that is dispatched after shutdown began is the last one of its connection (exit check
+			// below). Say so before the handlers run: a head they put on the wire themselves (hijacked writer)
+			// cannot be amended afterwards.
+			if !s.Core.IsRunning() {
+				ctx.Response.Header.SetConnectionClose(true)
+			}
 			s.Core.ServeHTTP(cc, ctx)
 		}
 		if s.EnableTrace {
